@@ -178,6 +178,9 @@ def report_runs(rep, pid, exe, bad, tagbase):
     n = 0
     seen = set()
     for t, why in bad:
+        if n >= 8:                               # enough to report; re-running hundreds of hanging stimuli takes hours
+            rep.add("failures_not_rerun", len(bad))
+            break
         key = (t.case.label.split("|")[0], why.split(":")[0])
         if key in seen:
             rep.add("duplicate_failures")
